@@ -89,7 +89,7 @@ func (r *Run) sweepFuncs(scope []string) []string {
 				in = true
 			}
 		}
-		if !in || r.Prog.ContractFor(full, src.Pkg.PkgPath) != nil || sweepSkip[shortFuncName(full)] {
+		if c := r.Prog.ContractFor(full, src.Pkg.PkgPath); !in || (c != nil && !c.Trusted && (propListed(c.Opts["props"], r.Prop) || c.Safe)) || sweepSkip[shortFuncName(full)] {
 			continue
 		}
 		out = append(out, full)
@@ -292,8 +292,8 @@ func ledgerExtra(r *Run) error {
 	sort.Strings(funcs)
 	gone, other := 0, 0
 	for _, f := range funcs {
-		if r.Prog.ContractFor(f, "") != nil {
-			continue // now under a contract of its own: covered by that check
+		if c := r.Prog.ContractFor(f, ""); c != nil && !c.Trusted && (propListed(c.Opts["props"], r.Prop) || c.Safe) {
+			continue // under a contract of this property, or under a safe-mode contract of another one: every site of it is an obligation of that contract
 		}
 		sites, why := r.safeSites(f)
 		if why != "" {
